@@ -188,7 +188,7 @@ func c11Run(c *h.Ctx) {
 	r := c.R
 	po := PlayOpts{
 		Hands:    2 + r.Intn(3),
-		Churn:    Churn{BetweenP: 0.3, Rebuy: true, BuyIn: true, SitOut: true, ResumePaused: true},
+		Churn:    Churn{BetweenP: 0.3, Rebuy: true, BuyIn: true, SitOut: true, ResumePaused: true, MidP: 0.15, MidLeaveOther: true, MidJoin: true},
 		Gen:      h.GenOpts{MinSeats: 2, MaxSeats: 10, MinPlayers: 2, ShortStacks: r.Intn(2) == 0},
 		Policies: []string{"random", "maniac", "nit", "callstation"},
 		MaxWait:  14 * time.Second,
